@@ -597,6 +597,11 @@ def validate_first(ctx, vc, cp, icp):
                             tests = st.test.values if isinstance(st.test, ast.BoolOp) and isinstance(st.test.op, ast.Or) else [st.test]
                             if any(nonempty_test(t, S) or (elem is not None and member_test(t, S, elem)) for t in tests):
                                 guarded = True
+            # ... or the recording is the else-branch of that raising test (`elif taken: raise / else: record`)
+            if isinstance(p, ast.If) and any(x is n for x in p.orelse) and p.body and isinstance(p.body[-1], ast.Raise):
+                tests = p.test.values if isinstance(p.test, ast.BoolOp) and isinstance(p.test.op, ast.Or) else [p.test]
+                if any(nonempty_test(t, S) or (elem is not None and member_test(t, S, elem)) for t in tests):
+                    guarded = True
             n = p
             if isinstance(p, (ast.FunctionDef,)):
                 break
